@@ -506,7 +506,7 @@ class Rec:
         T.orthogonalize, tn.orthogonalize = self.saved_orth
 
     def log2_contract(self):
-        """(number of calls, number of calls off by the known one-ulp rounding, list of genuine violations)"""
+        """(number of calls, number of calls where log2 rounds up to the next integer (v within 2^-40 below a power of two, see NEAR_POW2), list of genuine violations)"""
         ulp, bad = 0, []
         for v, dp, same in self.log2:
             if same:
